@@ -414,8 +414,42 @@ func opSeqls(f []string) string {
 	return o.String()
 }
 
+// genSeqlsWide: a flat tree of 100-180 directories, all of them given as arguments (non
+// recursive): many more work items than workers, so what is still queued when the inputs are
+// closed matters
+func genSeqlsWide(r *Rand) string {
+	nd := r.Range(100, 180)
+	var nodes, roots []string
+	for d := 0; d < nd; d++ {
+		dir := fmt.Sprintf("w%03d", d)
+		nodes = append(nodes, hx(dir)+":d")
+		roots = append(roots, hx(dir))
+		nf := r.Range(1, 3)
+		for j := 0; j < nf; j++ {
+			nodes = append(nodes, hx(fmt.Sprintf("%s/f.%d.exr", dir, j+1))+":f")
+		}
+		if r.Chance(1, 6) {
+			nodes = append(nodes, hx(dir+"/notes.txt")+":f")
+		}
+	}
+	flags := ""
+	for _, c := range "as1f" {
+		if r.Chance(1, 2) {
+			flags += string(c)
+		}
+	}
+	if flags == "" {
+		flags = "-"
+	}
+	return fmt.Sprintf("seqls %s %s %s", flags, strings.Join(roots, ","), strings.Join(nodes, ","))
+}
+
 func genSeqls(r *Rand, n int, thorough bool, emit func(string)) {
 	for i := 0; i < n; i++ {
+		if i%10 == 9 {
+			emit(genSeqlsWide(r))
+			continue
+		}
 		var nodes []string
 		var dirs []string
 		seen := map[string]bool{}
@@ -506,8 +540,19 @@ func genSeqls(r *Rand, n int, thorough bool, emit func(string)) {
 		}
 		nroots := r.Range(1, 3)
 		var roots []string
+		// the tree root may be an argument only once when it holds a directory link: "." and "/T"
+		// are two paths to the same link, i.e. aliasing, which the exact-listing clauses exclude
+		// (which of the two walks descends below the link depends on the schedule)
+		rootUsed := false
 		for k := 0; k < nroots; k++ {
-			switch r.Intn(8) {
+			c := r.Intn(8)
+			if (c == 0 || c == 2) && len(linked) > 0 {
+				if rootUsed {
+					c = 4
+				}
+				rootUsed = true
+			}
+			switch c {
 			case 0:
 				roots = append(roots, hx("."))
 			case 1:
@@ -524,8 +569,9 @@ func genSeqls(r *Rand, n int, thorough bool, emit func(string)) {
 				if len(dirs) > 0 {
 					d := dirs[r.Intn(len(dirs))]
 					roots = append(roots, hx(r.Pick([]string{d, d + "/", "./" + d, "/T/" + d})))
-				} else {
+				} else if !(rootUsed && len(linked) > 0) {
 					roots = append(roots, hx("."))
+					rootUsed = true
 				}
 			}
 		}
